@@ -59,6 +59,7 @@ type Trace struct {
 	Spec      WorldSpec       `json:"spec"`
 	Blocks    []Block         `json:"blocks"`
 	Extra     json.RawMessage `json:"extra,omitempty"`
+	Node      NodeOpts        `json:"node,omitempty"` // the operator settings of the node that runs the trace
 }
 
 func (t *Trace) Clone() *Trace {
